@@ -18,15 +18,18 @@ CONSTANTS Family, Double
 VARIABLES stage, doc, scr
 vars == <<stage, doc, scr>>
 
+kSm == <<240, 159, 152, 128>>
+kSmE == <<240, 159, 152, 128, 195, 169>>
 FaultDocs ==
   {Null, True, u0, u1, u256, im1, f15, fnan, sEmpty, sab, sE, Arr(<<>>), Obj(<<>>)}
   \cup RepL1
   \cup {Arr(<<u256, Null, f15>>), Arr(<<Arr(<<u1, sab>>), Obj(<< <<ka, Null>> >>)>>),
         Obj(<< <<kB, u1>>, <<ka, Arr(<<sE, f15>>)>> >>), Obj(<< <<kE, Obj(<< <<kab, Null>>, <<kb, sQuote>> >>)>> >>),
-        Arr(<<sSmile, sE>>), Obj(<< <<kE, sE>> >>), Arr(<<True, False, Null, sEmpty>>), Arr(<<u65536, u2p32, im129>>)}
+        Arr(<<sSmile, sE>>), Obj(<< <<kE, sE>> >>), Obj(<< <<kE, Null>>, <<kEb, True>> >>), Obj(<< <<ka, Null>>, <<kE, False>>, <<kEb, sa>> >>),
+        Obj(<< <<kSm, Null>>, <<kSmE, Null>> >>), Arr(<<True, False, Null, sEmpty>>), Arr(<<u65536, u2p32, im129>>)}
 SmallDocs == {Null, u1, sab, Arr(<<>>), Obj(<<>>), Arr(<<u1>>), Obj(<< <<ka, Null>> >>), Arr(<<sa, u1>>)}
 
-ByteVals == {0, 1, 16, 32, 48, 64, 80, 96, 112, 127, 128, 255}
+ByteVals == {0, 1, 2, 3, 5, 16, 32, 48, 64, 80, 96, 112, 127, 128, 255}
 
 \* one fault applied to a byte string
 Truncate(b, k) == Sub(b, 1, k)
